@@ -139,14 +139,33 @@ func jschemaS(b *schema.BodySchema) (S, bool) {
 					Index int    `json:"index"`
 					Value string `json:"value"`
 				} `json:"labels"`
-				Attrs []gojson.RawMessage `json:"attrs"`
+				Attrs []struct {
+					Name string `json:"name"`
+					Expr struct {
+						Static *string `json:"static"`
+					} `json:"expr"`
+				} `json:"attrs"`
 			}
-			if err := gojson.Unmarshal([]byte(key), &dk); err != nil || len(dk.Labels) != 1 || len(dk.Attrs) != 0 {
-				return nil, false // the model covers dependent bodies selected by one label
+			if err := gojson.Unmarshal([]byte(key), &dk); err != nil {
+				return nil, false
 			}
 			d, ok := jschemaS(k.DependentBody[schema.SchemaKey(key)])
 			if !ok {
 				return nil, false
+			}
+			if len(dk.Labels) == 0 && len(dk.Attrs) == 1 && dk.Attrs[0].Expr.Static != nil && k.Body != nil {
+				// selected by one attribute value (as written, or its default)
+				def := S(Nil)
+				if as := k.Body.Attributes[dk.Attrs[0].Name]; as != nil {
+					if dv, isDef := as.DefaultValue.(schema.DefaultValue); isDef && dv.Value.Type() == cty.String && dv.Value.IsKnown() && !dv.Value.IsNull() {
+						def = Str(dv.Value.AsString())
+					}
+				}
+				deps = append(deps, L(Atom("attr"), Str(dk.Attrs[0].Name), Str(*dk.Attrs[0].Expr.Static), def, d))
+				continue
+			}
+			if len(dk.Labels) != 1 || len(dk.Attrs) != 0 {
+				return nil, false // the model covers dependent bodies selected by one label or by one attribute
 			}
 			deps = append(deps, L(Int(dk.Labels[0].Index), Str(dk.Labels[0].Value), d))
 		}
